@@ -44,7 +44,9 @@ void *__wrap_realloc (void *o, size_t n)
 }
 void __wrap_free (void *p)
 {
-    if (p && in_lib) { note_free (p); if (!blk_del (p)) badfree++; }
+    /* a pointer the library never allocated (or already freed) is counted and NOT handed to the
+     * allocator, so that the history goes on and the count can be compared with the model */
+    if (p && in_lib) { note_free (p); if (!blk_del (p)) { badfree++; return; } }
     __real_free (p);
 }
 #define LIB(stmt) do { in_lib = 1; stmt; in_lib = 0; } while (0)
@@ -185,6 +187,12 @@ static void exec_tok (const char *tok)
         int i = ARGI (1);
         if (!held (i)) res = "X";
         else { LIB (pixman_image_set_destroy_function (imgs[i], ARGI (2) ? on_destroy : NULL, (void *)(intptr_t)ARGI (3))); res = "-"; inv[ninv++] = i; }
+    } else if (!strcmp (f[0], "I") && nf == 3) {
+        /* pixman_image_set_indexed: palette 'p' is palettes[p] (never dereferenced here), '-' NULL */
+        static pixman_indexed_t palettes[4];
+        int i = ARGI (1);
+        if (!held (i)) res = "X";
+        else { LIB (pixman_image_set_indexed (imgs[i], ISNULL (2) ? NULL : &palettes[ARGI (2) & 3])); res = "-"; inv[ninv++] = i; }
     } else if (!strcmp (f[0], "GC") && nf == 1) {
         if (cache) res = "X"; else { LIB (cache = pixman_glyph_cache_create ()); res = "-"; }
     } else if (!strcmp (f[0], "GD") && nf == 1) {
@@ -214,6 +222,7 @@ static void exec_tok (const char *tok)
     /* freed image structs in ascending id order */
     for (int i = 0; i < nimg; i++) for (int k = 0; k < nfreed_now; k++) if (freed_now[k] == i) fprintf (fo, "~%d", i);
     for (int k = 0; k < ninv; k++) if (held (inv[k])) { fputc (';', fo); obs (inv[k]); }
+    fflush (fo);     /* after an abort or a hang the reply shows which call did not come back */
 }
 
 static void begin_history (void)
@@ -233,15 +242,18 @@ static void end_history (void)
     for (int i = 0; i < nimg; i++) while (ext[i] > 0) { ext[i]--; LIB (pixman_image_unref (imgs[i])); }
     if (cache) { while (cache->freeze_count > 0) LIB (pixman_glyph_cache_thaw (cache)); while (cache->freeze_count < 0) LIB (pixman_glyph_cache_freeze (cache)); LIB (pixman_glyph_cache_destroy (cache)); cache = NULL; }
     if (nblk) fprintf (fo, " LEAK-AFTER-CLEANUP=%d", nblk);
+    while (nblk) __real_free (blk[--nblk]);     /* reported above; keep LeakSanitizer for what the table cannot see */
     fprintf (fo, "\n"); fflush (fo);
     for (int i = 0; i < nimg; i++) { free (clientbuf[i]); clientbuf[i] = NULL; }
 }
 
 /* ---------------------------------------------------------------- generator */
-static char line[1 << 16]; static int linelen;
+static FILE *fops;
+/* the request is on disk before the library is called: after an abort or a hang the last
+ * (unterminated) line of <ops_out> is the history that did it */
 static void emit (const char *tok)
 {
-    linelen += snprintf (line + linelen, sizeof line - linelen, " %s", tok);
+    fprintf (fops, " %s", tok); fflush (fops);
     fputc (' ', fo); exec_tok (tok);
 }
 static int pick_held (void) { int c[MAXIMG], n = 0; for (int i = 0; i < nimg; i++) if (held (i)) c[n++] = i; return n ? c[rng_n (n)] : -1; }
@@ -266,7 +278,7 @@ static void gen_history (void)
     int len = style == 4 ? rng_range (30, 70) : rng_range (3, 30);
     int pool = rng_range (2, 6);
     begin_history ();
-    linelen = snprintf (line, sizeof line, "hist");
+    fprintf (fops, "hist");
     for (int s = 0; s < len && nimg < MAXIMG - 8; s++) {
         int nh = n_held ();
         int r = rng_n (100);
@@ -298,7 +310,8 @@ static void gen_history (void)
                 else { static const char *ps[] = { "-", "-", "e", "1", "65536,0", "1,2,3,4,5,6,7" }; snprintf (tok, sizeof tok, "F:%d:%d:%s", i, flt, ps[rng_n (6)]); }
             }
             else if (k < 80) { static const int ns[] = { 0, 1, 2, 2, 3, 5, 9, 20 }; if (rng_chance (15)) snprintf (tok, sizeof tok, "%c:%d:-", rng_chance (50) ? 'K' : 'k', i); else snprintf (tok, sizeof tok, "%c:%d:%d", rng_chance (60) ? 'K' : 'k', i, ns[rng_n (8)]); }
-            else snprintf (tok, sizeof tok, "D:%d:%d:%d", i, rng_chance (85), rng_range (1, 99));
+            else if (k < 97) snprintf (tok, sizeof tok, "D:%d:%d:%d", i, rng_chance (85), rng_range (1, 99));
+            else if (rng_chance (25)) snprintf (tok, sizeof tok, "I:%d:-", i); else snprintf (tok, sizeof tok, "I:%d:%d", i, rng_n (2));
         } else if (r < wa + wr + wg) {
             int k = rng_n (100);
             if (!cache) snprintf (tok, sizeof tok, "GC");
@@ -323,10 +336,10 @@ static void gen_history (void)
 int main (int argc, char **argv)
 {
     if (argc == 6 && !strcmp (argv[1], "gen")) {
-        FILE *fops = fopen (argv[4], "w"); fo = fopen (argv[5], "w"); if (!fops || !fo) return 2;
+        fops = fopen (argv[4], "w"); fo = fopen (argv[5], "w"); if (!fops || !fo) return 2;
         rng_seed (strtoull (argv[2], NULL, 10));
         int n = atoi (argv[3]);
-        for (int k = 0; k < n; k++) { gen_history (); fprintf (fops, "%s\n", line); fflush (fops); }
+        for (int k = 0; k < n; k++) { gen_history (); fprintf (fops, "\n"); fflush (fops); }
         return 0;
     }
     if (argc == 4 && !strcmp (argv[1], "exec")) {
